@@ -33,6 +33,23 @@ impl FixtureDatabase {
 
         debug!("Analyzing file: {:?}", file_path);
 
+        // Analyses of the same file are serialized: the background scan and an editor
+        // notification may reach it at the same time, and their updates must not interleave.
+        let file_lock = self
+            .file_analysis_locks
+            .entry(file_path.clone())
+            .or_default()
+            .clone();
+        let _file_guard = file_lock.lock().unwrap_or_else(|e| e.into_inner());
+
+        // The scan path assumes nothing is known about the file yet. If it was analyzed
+        // already (an open editor buffer is newer than the content on disk), keep that
+        // result instead of appending the disk version to it.
+        if !cleanup_previous && self.file_cache.contains_key(&file_path) {
+            debug!("Skipping scan of already analyzed file: {:?}", file_path);
+            return;
+        }
+
         // Cache the file content for later use (e.g., in find_fixture_definition)
         // Use Arc for efficient sharing without cloning
         self.file_cache
